@@ -131,11 +131,11 @@ theorem fieldsPreserved_of (exempt : List Bytes) (sent got : List Field)
   · simp [h n he]
 
 theorem trailer_names_lower (t : Option (List Field)) (f : Field)
-    (hf : f ∈ (trailerBlock true (some (decodeTrailers true t))).getD []) : lower f.1 = f.1 := by
+    (hf : f ∈ (trailerBlock true (some (decodeTrailers true true t))).getD []) : lower f.1 = f.1 := by
   cases t with
   | none => simp [trailerBlock, decodeTrailers, toFields] at hf
   | some fs =>
-    simp only [trailerBlock, decodeTrailers, if_true, endStreamAsModelled_true, Bool.true_and] at hf
+    simp only [trailerBlock, decodeTrailers, collectFields_true, if_true, endStreamAsModelled_true, Bool.true_and] at hf
     split at hf
     · exact keysLower_ofFields fs _ (name_mem_keys _ f (by simpa using hf))
     · simp at hf
@@ -176,7 +176,7 @@ theorem spec_holds_on_model (O : Oracles) (remote : Bytes) (win : List Nat) (w :
       have hl : ∀ f ∈ (fwdReqH2 O remote win w).trailers.getD [], lower f.1 = f.1 := by
         intro f hf
         unfold fwdReqH2 cliEncode srvDecode at hf
-        simp only [he, Bool.false_and, cliSendsTrailers_true, srvPassesTrailers_true] at hf
+        simp only [he, Bool.false_and, cliSendsTrailers_true, srvPassesTrailers_true, reqTrailerKeepsAll_true] at hf
         exact trailer_names_lower w.trailers f hf
       rw [valuesOf_eq_valuesAt _ hl, hn]
     | true =>
